@@ -5799,11 +5799,9 @@ func (c *linkerContext) generateChunkJS(chunkIndex int, chunkWaitGroup *sync.Wai
 				if fileRepr := c.graph.Files[chunk.sourceIndex].InputFile.Repr.(*graph.JSRepr); fileRepr.Meta.Wrap == graph.WrapCJS {
 					aliases = []string{"default"}
 				} else {
-					resolvedExports := fileRepr.Meta.ResolvedExports
-					aliases = make([]string, 0, len(resolvedExports))
-					for alias := range resolvedExports {
-						aliases = append(aliases, alias)
-					}
+					// Use the same list that the export clause is generated from. It
+					// omits ambiguous "export *" names and probable TypeScript types.
+					aliases = append(aliases, fileRepr.Meta.SortedAndFilteredExportAliases...)
 				}
 			} else {
 				aliases = make([]string, 0, len(chunkRepr.exportsToOtherChunks))
